@@ -303,6 +303,35 @@ func (x *Exec) authExchange(c *Client, ui int, m *ref.Msg, st *Step, method int,
 	return rq, before, true
 }
 
+// owns: requests of user ui act on allocation a - the users are the same, or the operator's
+// AuthHandler gives everybody the same (empty) user id.
+func (x *Exec) owns(a *MAlloc, ui int) bool {
+	return a.User == Users[ui].Name || x.w.cfg.EmptyUserID
+}
+
+// txFor is the transaction id of a scripted request: fresh, another client's last one, or an extreme value.
+func (x *Exec) txFor(c *Client, st *Step) (id [12]byte) {
+	switch {
+	case st.TxFrom > 0:
+		x.St.inc("txid-reused-across-clients")
+
+		return x.client(st.TxFrom - 1).LastTx
+	case st.TxFrom == -1:
+		x.St.inc("txid-all-zero")
+
+		return id
+	case st.TxFrom == -2:
+		for i := range id {
+			id[i] = 0xFF
+		}
+		x.St.inc("txid-all-ones")
+
+		return id
+	}
+
+	return c.nextTx()
+}
+
 // ---- Allocate -------------------------------------------------------------------------------
 
 func (x *Exec) opAllocate(st *Step) { //nolint:cyclop,gocyclo,maintidx
@@ -313,7 +342,7 @@ func (x *Exec) opAllocate(st *Step) { //nolint:cyclop,gocyclo,maintidx
 		// handles them in order, so the outcome is that of the sequential history; what differs is
 		// that the old allocation's teardown is still under way when the new one is made.
 		nonceMinutes := time.Now().Unix()/60 - c.NonceAt.Unix()/60
-		if a := x.m.Allocs[c.Idx]; a != nil && a.User == Users[ui].Name && nonceMinutes < 59 {
+		if a := x.m.Allocs[c.Idx]; a != nil && x.owns(a, ui) && nonceMinutes < 59 {
 			rm := &ref.Msg{Method: ref.MethodRefresh, Class: ref.ClassRequest, TxID: c.nextTx()}
 			rm.Add(ref.AttrLifetime, ref.U32(0))
 			raw, _, _ := x.signed(c, ui, rm, "", 0)
@@ -655,7 +684,16 @@ func (x *Exec) judgeFreshNonce(rq *reqInfo, fresh bool, what string) {
 func (x *Exec) opRefresh(st *Step) {
 	c := x.client(st.C)
 	ui := x.userIdx(c, st)
-	m := &ref.Msg{Method: ref.MethodRefresh, Class: ref.ClassRequest, TxID: c.nextTx()}
+	m := &ref.Msg{Method: ref.MethodRefresh, Class: ref.ClassRequest}
+	if st.Retx && c.HasRefreshTx {
+		// the retransmission of the client's last Refresh (its answer was lost, or is late): a
+		// Refresh with a non-zero lifetime simply refreshes again (RFC 5766 section 7.2)
+		m.TxID = c.RefreshTx
+		x.St.inc("refresh-retransmission")
+	} else {
+		m.TxID = x.txFor(c, st)
+	}
+	c.RefreshTx, c.HasRefreshTx = m.TxID, true
 	if st.Life >= 0 {
 		m.Add(ref.AttrLifetime, ref.U32(uint32(st.Life)))
 	}
@@ -669,7 +707,7 @@ func (x *Exec) opRefresh(st *Step) {
 	// (success, the allocation lives on for the granted lifetime) or after it (437) - but not both
 	tied := false
 	if st.Rel == "tie" && st.Defect == "" && st.Fam == 0 && st.Life != 0 {
-		if a := x.m.Allocs[c.Idx]; a != nil && a.User == Users[ui].Name {
+		if a := x.m.Allocs[c.Idx]; a != nil && x.owns(a, ui) {
 			x.tieWith(a.Deadline, "allocation")
 			if tied = time.Now().Equal(a.Deadline); tied {
 				a.Deadline = a.Deadline.Add(time.Nanosecond) // the answer decides whether it expired
@@ -688,7 +726,7 @@ func (x *Exec) opRefresh(st *Step) {
 	}
 	a := x.m.Allocs[c.Idx]
 	success := rq.resp != nil && rq.resp.Class == ref.ClassSuccess
-	if lost && rq.resp == nil && a != nil && a.User == Users[ui].Name {
+	if lost && rq.resp == nil && a != nil && x.owns(a, ui) {
 		x.St.inc("response-lost:refresh")
 		switch {
 		case x.nonceStale:
@@ -717,7 +755,7 @@ func (x *Exec) opRefresh(st *Step) {
 			x.fail([]string{"C06"}, "refresh-without-allocation", "Refresh on a 5-tuple without allocation answered with success")
 		}
 		x.St.inc("refresh-no-allocation")
-	case a.User != user:
+	case !x.owns(a, ui):
 		if success {
 			x.fail([]string{"C03", "C04"}, "refresh-by-other-user", "user %s refreshed the allocation of user %s", user, a.User)
 
@@ -793,7 +831,7 @@ func (x *Exec) opCreatePermission(st *Step) {
 			}
 		}
 	}
-	m := &ref.Msg{Method: ref.MethodCreatePermission, Class: ref.ClassRequest, TxID: c.nextTx()}
+	m := &ref.Msg{Method: ref.MethodCreatePermission, Class: ref.ClassRequest, TxID: x.txFor(c, st)}
 	for i, p := range st.P {
 		v := xorPeerValue(p, m.TxID)
 		if st.Opt == "trunc-first" && i == 0 {
@@ -820,12 +858,11 @@ func (x *Exec) opCreatePermission(st *Step) {
 	a := x.m.Allocs[c.Idx]
 	success := rq.resp != nil && rq.resp.Class == ref.ClassSuccess
 	lostResp := lost && rq.resp == nil
-	user := Users[ui].Name
 	refuse, props := "", []string{"X00"}
 	switch {
 	case a == nil:
 		refuse, props = "no allocation", []string{"C06"}
-	case a.User != user:
+	case !x.owns(a, ui):
 		refuse, props = "other user's allocation", []string{"C03", "C04"}
 	case len(st.P) == 0:
 		refuse = "no peer address"
@@ -918,12 +955,12 @@ func (x *Exec) opChannelBind(st *Step) { //nolint:cyclop
 	// the request may outlive the allocation
 	allocTie := false
 	if st.Rel == "alloc-tie" && st.Defect == "" && x.w.cfg.CallbackSleepS == 0 {
-		if a := x.m.Allocs[c.Idx]; a != nil && a.User == Users[ui].Name {
+		if a := x.m.Allocs[c.Idx]; a != nil && x.owns(a, ui) {
 			x.tieWith(a.Deadline, "allocation (ChannelBind)")
 			allocTie = time.Now().Equal(a.Deadline)
 		}
 	}
-	m := &ref.Msg{Method: ref.MethodChannelBind, Class: ref.ClassRequest, TxID: c.nextTx()}
+	m := &ref.Msg{Method: ref.MethodChannelBind, Class: ref.ClassRequest, TxID: x.txFor(c, st)}
 	m.Add(ref.AttrChannelNumber, ref.ChannelNumberAttr(num))
 	m.Add(ref.AttrXORPeerAddress, xorPeerValue(pi, m.TxID))
 	if allocTie {
@@ -962,7 +999,7 @@ func (x *Exec) opChannelBind(st *Step) { //nolint:cyclop
 		if !strings.Contains(x.libListing(c), fmt.Sprintf("%#x->%s", num, canonAddr(pa.String()))) {
 			// no binding: the request had no effect - or the server undid the binding after the
 			// failed write and kept the permission it had refreshed; the client cannot tell
-			if a != nil && a.User == Users[ui].Name {
+			if a != nil && x.owns(a, ui) {
 				libP, _ := splitListing(x.libListing(c))
 				_, had := a.Perms[canonIP(pa.IP)]
 				for _, lp := range libP {
@@ -975,7 +1012,7 @@ func (x *Exec) opChannelBind(st *Step) { //nolint:cyclop
 
 			return
 		}
-		if a == nil || a.User != Users[ui].Name || !ref.ValidChannel(num) {
+		if a == nil || !x.owns(a, ui) || !ref.ValidChannel(num) {
 			return // the cross-check after the step judges a binding that must not exist
 		}
 		if ch, ok := a.Chans[num]; ok && !sameUDP(ch.Peer, pa) {
@@ -997,7 +1034,7 @@ func (x *Exec) opChannelBind(st *Step) { //nolint:cyclop
 		}
 
 		return
-	case a.User != user:
+	case !x.owns(a, ui):
 		if success {
 			x.fail([]string{"C03", "C04"}, "channelbind-by-other-user", "user %s bound a channel in the allocation of %s", user, a.User)
 		}
